@@ -7,7 +7,8 @@ RULE = ("random models x every kind of objective variable (own domain / alias wi
         "or no constraint) x both directions x configurations: result compared with O-brute's optimum (None iff "
         "infeasible); plane-A history monitor: incumbents strictly improving, each followed by reset to the initial "
         "domains and a tightening to incumbent -/+ 1 through the offset; restart budget. Multiprocessing: schedule shim "
-        "(all interleavings when <= 5000) + real processes. distinct = distinct (model, cfg, objective, direction); "
+        "(all interleavings when <= 5000) + real processes. Beyond brute force: large planted models (arity <= 12) - the "
+        "optimum must be valid and at least as good as the planted assignment. distinct = distinct (model, cfg, objective, direction); "
         "non-trivial = feasible and >= 2 improving solutions or >= 1 choice")
 
 
@@ -20,6 +21,9 @@ def mp_jobs(tier, seed):
                          "samples": 200, "deadline_s": 60 if q else 600},
                         mode="interp" if k % 2 else "jit", timeout=300 if q else 1500, tag="mpshim:%d" % k,
                         stall_s=90))
+    from framework.props import bigrun
+
+    jobs.extend(bigrun.jobs("C03", tier, seed + 2))
     jobs.append(Job("framework.props.mpfamily", "run_mp_real",
                     {"props": ["C03"], "seed": seed * 991 + 3, "count": 10 if q else 80, "deadline_s": 60 if q else 600},
                     mode="jit", timeout=300 if q else 1500, tag="mpreal", stall_s=150))
@@ -28,7 +32,10 @@ def mp_jobs(tier, seed):
 
 def main(tier, seed):
     def post(rep, extra):
-        mpfamily.aggregate(rep, extra)
+        from framework.props import bigrun
+
+        mpfamily.aggregate(rep, [j for j in extra if j.module == "framework.props.mpfamily"])
+        bigrun.aggregate(rep, [j for j in extra if j.module == "framework.props.bigrun"])
 
     rep = _modelprop.run(
         "C03", tier, seed, RULE, do=["opt"], monitors=["budget", "opthist"], objectives_per_model=3,
@@ -36,7 +43,8 @@ def main(tier, seed):
         needs=[("opt.feasible", 800, "feasible optimisations"), ("opt.infeasible", 100, "infeasible optimisations"),
                ("opt.objective_unconstrained", 100, "unconstrained objectives"),
                ("opt.objective_has_offset", 100, "objectives with offset"),
-               ("opthist.tightenings", 500, "history monitor"), ("mp.cases", 30, "multiprocessing cases")],
+               ("opthist.tightenings", 500, "history monitor"), ("mp.cases", 30, "multiprocessing cases"),
+               ("big.optimisations_completed", 50, "optimisations of large planted models")],
         assumptions=["O-brute optimum over the product of the shared domains", "models <= 6000/20000 points"])
     return rep.finish()
 
